@@ -29,6 +29,9 @@ def _key_of(bitgen):
     return {"entropy": str(ss.entropy), "spawn_key": list(ss.spawn_key), "n_children_spawned": int(ss.n_children_spawned)}
 
 
+SCRIPT = {"order": None, "used": 0}
+
+
 class RecordingGenerator(np.random.Generator):
     """numpy.random.Generator that records (op, arguments, result) of every draw."""
 
@@ -69,6 +72,13 @@ class RecordingGenerator(np.random.Generator):
 
     def choice(self, a, size=None, replace=True, p=None, axis=0, shuffle=True):
         r = self._outer(super().choice, a, size=size, replace=replace, p=p, axis=axis, shuffle=shuffle)
+        if SCRIPT["order"] is not None and np.isscalar(a) and not replace:
+            # a scripted draw: some seed produces every subset in every order; this reaches the rare ones (e.g. an order that
+            # looks like one ascending block by its end points) without searching for that seed
+            o = np.asarray(SCRIPT["order"](int(a), int(size if size is not None else 1)), dtype=np.asarray(r).dtype)
+            if o.shape == np.shape(r) and len(set(o.tolist())) == len(o) and o.min() >= 0 and o.max() < int(a):
+                r = o
+                SCRIPT["used"] += 1
         self._ev("choice", a=a if np.isscalar(a) else "array(%d)" % len(a), size=size, replace=replace,
                  result=np.array(r, copy=True))
         return r
